@@ -96,7 +96,8 @@ def do_run(name, check_id=None, tier='quick', seed='1'):
   wt = mk_worktree(f'run_{name}_{pid}_{os.getpid()}', 'HEAD')
   t0 = time.time()
   try:
-    rc, out = apply_patch(wt, f'{dst}/patch.diff')
+    patch = f'{dst}/patch_head.diff' if os.path.exists(f'{dst}/patch_head.diff') else f'{dst}/patch.diff'
+    rc, out = apply_patch(wt, patch)
     if rc:
       print(name, 'PATCH DOES NOT APPLY to HEAD:', out[-300:])
       return None
